@@ -1171,6 +1171,392 @@ theorem cliTask_eq_twc (c : Coll) (hW : wf c = true) (p : List CName) (r : Excep
     · rw [h1]
     · exact (entry_names_agree c hW e he p h2).symm
 
+/-! ### listings -/
+
+theorem flatKids_eq (cs : List (CName × Coll)) (anc : List CName) :
+    flatKids cs anc = cs.flatMap (fun kc => flatPairs kc.2 (anc ++ [kc.1])) := by
+  induction cs with
+  | nil => simp [flatKids]
+  | cons hd tl ih => obtain ⟨k, c⟩ := hd; simp [flatKids, ih]
+
+theorem flatPairs_mk (nm ad ts als cs dflt cfg) (anc : List CName) :
+    flatPairs (.mk nm ad ts als cs dflt cfg) anc =
+      ts.map (flatTask anc als dflt) ++ cs.flatMap (fun kc => flatPairs kc.2 (anc ++ [kc.1])) := by
+  rw [flatPairs, flatKids_eq]
+
+/-- one task binding of the tree: where it lives, its binding name, whether it is its collection's
+    default, and its lexicon aliases (declared on the task or given to `add_task`) -/
+structure Binding where
+  anc : List CName
+  key : CName
+  isDefault : Bool
+  aliases : List CName
+  deriving DecidableEq, Repr
+
+def ownBinding (anc : List CName) (als : List (CName × CName)) (dflt : Option CName) (t : CName × Nat) : Binding :=
+  ⟨anc, t.1, dflt = some t.1, aliasesOf als t.1⟩
+
+mutual
+/-- all task bindings of the tree, each exactly once, in listing order -/
+def bindings : Coll → List CName → List Binding
+  | mk _ _ ts als cs dflt _, anc => ts.map (ownBinding anc als dflt) ++ bindingsKids cs anc
+def bindingsKids : List (CName × Coll) → List CName → List Binding
+  | [], _ => []
+  | (k, c) :: r, anc => bindings c (anc ++ [k]) ++ bindingsKids r anc
+end
+
+/-- how the flat format prints a binding -/
+def Binding.flat (b : Binding) : Entry :=
+  (b.anc ++ [b.key],
+   (if b.isDefault && !b.anc.isEmpty then [b.anc] else []) ++ b.aliases.map (fun a => b.anc ++ [a]))
+
+/-- how the nested format prints a binding -/
+def Binding.nested (b : Binding) : NLine := .task b.anc b.key b.isDefault b.aliases
+
+def NLine.isTask : NLine → Bool
+  | .task .. => true
+  | .coll .. => false
+
+mutual
+/-- the task records of a JSON listing, in document order -/
+def jsonTasks : JNode → List (CName × List CName)
+  | .mk _ _ ts cs => ts ++ jsonTasksL cs
+def jsonTasksL : List JNode → List (CName × List CName)
+  | [] => []
+  | j :: r => jsonTasks j ++ jsonTasksL r
+end
+
+mutual
+theorem flat_eq_bindings : ∀ (c : Coll) (anc : List CName), flatPairs c anc = (bindings c anc).map Binding.flat
+  | mk _ _ ts als cs dflt _, anc => by
+    rw [flatPairs, bindings, List.map_append, flatKids_eq_bindings cs anc, List.map_map]
+    congr 1
+theorem flatKids_eq_bindings : ∀ (cs : List (CName × Coll)) (anc : List CName),
+    flatKids cs anc = (bindingsKids cs anc).map Binding.flat
+  | [], _ => by simp [flatKids, bindingsKids]
+  | (k, c) :: r, anc => by
+    rw [flatKids, bindingsKids, List.map_append, flat_eq_bindings c (anc ++ [k]), flatKids_eq_bindings r anc]
+end
+
+mutual
+theorem nested_eq_bindings : ∀ (c : Coll) (anc : List CName),
+    (nestedPairs c anc).filter NLine.isTask = (bindings c anc).map Binding.nested
+  | mk _ _ ts als cs dflt _, anc => by
+    rw [nestedPairs, bindings, List.map_append, List.filter_append, nestedKids_eq_bindings cs anc, List.map_map]
+    congr 1
+    induction ts with
+    | nil => rfl
+    | cons t tl ih => simp only [List.map_cons, List.filter_cons, nestedTask, NLine.isTask, if_true, ih]; rfl
+theorem nestedKids_eq_bindings : ∀ (cs : List (CName × Coll)) (anc : List CName),
+    (nestedKids cs anc).filter NLine.isTask = (bindingsKids cs anc).map Binding.nested
+  | [], _ => by simp [nestedKids, bindingsKids]
+  | (k, c) :: r, anc => by
+    rw [nestedKids, bindingsKids, List.map_append, List.cons_append, List.filter_cons]
+    simp only [NLine.isTask, Bool.false_eq_true, if_false, List.filter_append]
+    rw [nested_eq_bindings c (anc ++ [k]), nestedKids_eq_bindings r anc]
+end
+
+mutual
+theorem json_eq_bindings : ∀ (c : Coll) (anc : List CName),
+    jsonTasks (serialized c) = (bindings c anc).map (fun b => (b.key, b.aliases))
+  | mk _ _ ts als cs dflt _, anc => by
+    rw [serialized, jsonTasks, bindings, List.map_append, jsonKids_eq_bindings cs anc, List.map_map]
+    congr 1
+theorem jsonKids_eq_bindings : ∀ (cs : List (CName × Coll)) (anc : List CName),
+    jsonTasksL (serializedKids cs) = (bindingsKids cs anc).map (fun b => (b.key, b.aliases))
+  | [], _ => by simp [serializedKids, jsonTasksL, bindingsKids]
+  | (k, c) :: r, anc => by
+    rw [serializedKids, jsonTasksL, bindingsKids, List.map_append, json_eq_bindings c (anc ++ [k]),
+      jsonKids_eq_bindings r anc]
+end
+
+/-- positional correspondence of two lists -/
+inductive Pairs {α β : Type} (R : α → β → Prop) : List α → List β → Prop
+  | nil : Pairs R [] []
+  | cons {a b l l'} : R a b → Pairs R l l' → Pairs R (a :: l) (b :: l')
+
+namespace Pairs
+variable {α β γ : Type} {R : α → β → Prop}
+
+theorem append {l₁ l₂ : List α} {m₁ m₂ : List β} (h₁ : Pairs R l₁ m₁) (h₂ : Pairs R l₂ m₂) :
+    Pairs R (l₁ ++ l₂) (m₁ ++ m₂) := by
+  induction h₁ with
+  | nil => exact h₂
+  | cons h _ ih => exact .cons h ih
+
+theorem map_map (l : List γ) (f : γ → α) (g : γ → β) (h : ∀ t ∈ l, R (f t) (g t)) :
+    Pairs R (l.map f) (l.map g) := by
+  induction l with
+  | nil => exact .nil
+  | cons t tl ih =>
+    exact .cons (h t (by simp)) (ih (fun t' ht' => h t' (List.mem_cons_of_mem _ ht')))
+
+theorem flatMap (l : List γ) (f : γ → List α) (g : γ → List β) (h : ∀ t ∈ l, Pairs R (f t) (g t)) :
+    Pairs R (l.flatMap f) (l.flatMap g) := by
+  induction l with
+  | nil => exact .nil
+  | cons t tl ih =>
+    simp only [List.flatMap_cons]
+    exact append (h t (by simp)) (ih (fun t' ht' => h t' (List.mem_cons_of_mem _ ht')))
+
+theorem map_right {δ : Type} {S : α → δ → Prop} {l : List α} {m : List β} (g : β → δ) (h : Pairs R l m)
+    (hg : ∀ a b, b ∈ m → R a b → S a (g b)) : Pairs S l (m.map g) := by
+  induction h with
+  | nil => exact .nil
+  | cons hab _ ih =>
+    exact .cons (hg _ _ (by simp) hab) (ih (fun a b hb => hg a b (List.mem_cons_of_mem _ hb)))
+
+theorem length_eq {l : List α} {m : List β} (h : Pairs R l m) : l.length = m.length := by
+  induction h with
+  | nil => rfl
+  | cons _ _ ih => simp [ih]
+end Pairs
+
+theorem uniformDashKids_iff (ad : Bool) (cs : List (CName × Coll)) :
+    uniformDashKids ad cs = true ↔ ∀ k c, (k, c) ∈ cs → uniformDash ad c = true := by
+  induction cs with
+  | nil => simp [uniformDashKids]
+  | cons hd tl ih =>
+    obtain ⟨k, c⟩ := hd
+    simp only [uniformDashKids, Bool.and_eq_true, ih, List.mem_cons, Prod.mk.injEq]
+    constructor
+    · rintro ⟨h1, h2⟩ k' c' (⟨_, rfl⟩ | h)
+      · exact h1
+      · exact h2 k' c' h
+    · intro h
+      exact ⟨h k c (Or.inl ⟨rfl, rfl⟩), fun k' c' hm => h k' c' (Or.inr hm)⟩
+
+theorem uniformDash_mk (ad : Bool) (nm a ts als cs dflt cfg) :
+    uniformDash ad (.mk nm a ts als cs dflt cfg) = true ↔
+      a = ad ∧ ∀ k c, (k, c) ∈ cs → uniformDash ad c = true := by
+  rw [uniformDash]; simp only [Bool.and_eq_true, decide_eq_true_eq, uniformDashKids_iff]
+
+theorem uniformDash_autoDash {ad : Bool} {c : Coll} (h : uniformDash ad c = true) : c.autoDash = ad := by
+  cases c with
+  | mk nm a ts als cs dflt cfg => exact ((uniformDash_mk ..).mp h).1
+
+/-- in a tree with one `auto_dash_names` setting the parent's `subtask_name` changes nothing -/
+theorem subName_uniform {ad : Bool} {sub : Coll} (hwf : wf sub = true) (hu : sub.autoDash = ad)
+    {k : CName} (hk : transform ad k = k) {q : List CName} (hq : q ∈ acceptedNames sub) :
+    subName ad k q = k :: q := by
+  have hc := accepted_canonical sub hwf q hq
+  simp only [subName, hk]
+  congr 1
+  have : ∀ z ∈ q, transform ad z = z := fun z hz => by rw [← hu]; exact (hc.2 z hz).2
+  exact (List.map_congr_left (g := id) this).trans (List.map_id _)
+
+/-- `a` is a proper prefix of `n`: a collection path above the task -/
+def ProperPrefix (a n : List CName) : Prop := ∃ s, s ≠ [] ∧ a ++ s = n
+
+/-- how a binding relates to the `task_names` entry at the same position (`anc` = where the
+    collection producing the entry sits): same dotted name; every lexicon alias of the binding is an
+    alias of the entry; the entry has no further aliases except collection-name shortcuts -/
+def Matches (anc : List CName) (b : Binding) (e : Entry) : Prop :=
+  b.anc ++ [b.key] = anc ++ e.1 ∧
+  (∀ a ∈ b.aliases, b.anc ++ [a] ∈ e.2.map (anc ++ ·)) ∧
+  (∀ a ∈ e.2, anc ++ a ∈ b.aliases.map (fun x => b.anc ++ [x]) ∨ ProperPrefix (anc ++ a) (anc ++ e.1))
+
+theorem bindingsKids_eq (cs : List (CName × Coll)) (anc : List CName) :
+    bindingsKids cs anc = cs.flatMap (fun kc => bindings kc.2 (anc ++ [kc.1])) := by
+  induction cs with
+  | nil => simp [bindingsKids]
+  | cons hd tl ih => obtain ⟨k, c⟩ := hd; simp [bindingsKids, ih]
+
+/-- C10 `listing_once` core: in a well-formed tree with one `auto_dash_names` setting the task bindings
+    (= the lines of every listing format) correspond one-to-one, in order, to the `task_names` entries
+    (= the parser contexts) -/
+theorem bindings_match (c : Coll) : ∀ ad, wf c = true → uniformDash ad c = true →
+    ∀ anc, Pairs (Matches anc) (bindings c anc) (taskNames c) := by
+  induction c using ind with
+  | h nm a ts als cs dflt cfg ih =>
+    intro ad hwf hu anc
+    obtain ⟨hW, hkids⟩ := (wf_mk ..).mp hwf
+    obtain ⟨ha, hukids⟩ := (uniformDash_mk ..).mp hu
+    subst ha
+    rw [bindings, bindingsKids_eq, taskNames_mk]
+    apply Pairs.append
+    · apply Pairs.map_map
+      intro t _
+      refine ⟨rfl, ?_, ?_⟩
+      · intro x hx
+        simp only [ownBinding, ownEntry, List.map_map, List.mem_map] at hx ⊢
+        exact ⟨x, hx, rfl⟩
+      · intro x hx
+        simp only [ownEntry, List.mem_map] at hx
+        obtain ⟨y, hy, rfl⟩ := hx
+        left
+        simp only [ownBinding, List.mem_map]
+        exact ⟨y, hy, rfl⟩
+    · apply Pairs.flatMap
+      rintro ⟨k, sub⟩ hm
+      have hsub := ih k sub hm a (hkids k sub hm) (hukids k sub hm) (anc ++ [k])
+      obtain ⟨_, _, hkfix, _⟩ := kid_key hW hm
+      have hua := uniformDash_autoDash (hukids k sub hm)
+      simp only [kidEntries]
+      apply Pairs.map_right _ hsub
+      intro b e' he' ⟨h1, h2, h3⟩
+      have hne := entry_names_ne_nil sub he'
+      have hprim : subName a k e'.1 = k :: e'.1 :=
+        subName_uniform (hkids k sub hm) hua hkfix (mem_acceptedNames.mpr ⟨e', he', Or.inl rfl⟩)
+      have hal : ∀ q ∈ e'.2, subName a k q = k :: q := fun q hq =>
+        subName_uniform (hkids k sub hm) hua hkfix (mem_acceptedNames.mpr ⟨e', he', Or.inr hq⟩)
+      refine ⟨?_, ?_, ?_⟩
+      · simp only [prefixEntry, hprim]; rw [h1]; simp
+      · intro x hx
+        obtain ⟨q, hq, hqe⟩ := List.mem_map.mp (h2 x hx)
+        simp only [prefixEntry, List.map_append, List.mem_append, List.mem_map]
+        left
+        exact ⟨subName a k q, ⟨q, hq, rfl⟩, by rw [hal q hq, ← hqe]; simp⟩
+      · intro x hx
+        simp only [prefixEntry, List.mem_append, List.mem_map] at hx
+        rcases hx with ⟨q, hq, rfl⟩ | hx
+        · rw [hal q hq]
+          simp only [prefixEntry, hprim]
+          rcases h3 q hq with h | ⟨s, hs, hse⟩
+          · left; simpa using h
+          · right; exact ⟨s, hs, by simpa using hse⟩
+        · split at hx
+          · simp at hx; subst hx
+            right
+            simp only [prefixEntry, hprim]
+            exact ⟨e'.1, hne e'.1 (by simp [entryNames]), by simp⟩
+          · simp at hx
+
+/-! ### dotted strings ↔ component lists -/
+
+theorem splitOnDot_ne_nil (l : List Char) : splitOnDot l ≠ [] := by
+  induction l with
+  | nil => simp [splitOnDot]
+  | cons c r ih =>
+    simp only [splitOnDot]
+    split
+    · simp
+    · split <;> simp
+
+theorem joinDot_cons_cons (x y : CName) (r : List CName) : joinDot (x :: y :: r) = x ++ '.' :: joinDot (y :: r) := rfl
+
+theorem joinDot_splitOnDot (l : List Char) : joinDot (splitOnDot l) = l := by
+  induction l with
+  | nil => rfl
+  | cons c r ih =>
+    simp only [splitOnDot]
+    by_cases hc : c = '.'
+    · subst hc
+      simp only [if_true]
+      cases hs : splitOnDot r with
+      | nil => exact absurd hs (splitOnDot_ne_nil r)
+      | cons h t => rw [joinDot_cons_cons, ← hs, ih]; rfl
+    · simp only [hc, if_false]
+      cases hs : splitOnDot r with
+      | nil => exact absurd hs (splitOnDot_ne_nil r)
+      | cons h t =>
+        simp only []
+        rw [hs] at ih
+        cases t with
+        | nil => simp only [joinDot] at ih ⊢; rw [ih]
+        | cons y t' => rw [joinDot_cons_cons] at ih ⊢; rw [List.cons_append, ih]
+
+theorem splitOnDot_append_dot (x : CName) (hx : noDot x = true) (rest : List Char) :
+    splitOnDot (x ++ '.' :: rest) = x :: splitOnDot rest := by
+  induction x with
+  | nil => simp [splitOnDot]
+  | cons c r ih =>
+    have hc : c ≠ '.' := by intro e; subst e; simp [noDot] at hx
+    have hr : noDot r = true := by
+      simp only [noDot, List.contains_cons, Bool.not_eq_true', Bool.or_eq_false_iff] at hx ⊢
+      exact hx.2
+    simp only [List.cons_append, splitOnDot, hc, if_false, ih hr]
+
+theorem splitOnDot_joinDot (p : List CName) (hne : p ≠ []) (hnd : ∀ x ∈ p, noDot x = true) :
+    splitOnDot (joinDot p) = p := by
+  induction p with
+  | nil => exact absurd rfl hne
+  | cons x r ih =>
+    cases r with
+    | nil => simp only [joinDot]; exact splitOnDot_noDot x (hnd x (by simp))
+    | cons y r' =>
+      rw [joinDot_cons_cons, splitOnDot_append_dot x (hnd x (by simp)),
+        ih (by simp) (fun z hz => hnd z (List.mem_cons_of_mem _ hz))]
+
+theorem mem_xfAux_dot (fr to : Char) (hf : fr ≠ '.') (ht : to ≠ '.') (l : List Char) :
+    ∀ b, '.' ∈ xfAux fr to b l ↔ '.' ∈ l := by
+  induction l with
+  | nil => intro b; simp [xfAux]
+  | cons c tl ih =>
+    intro b
+    cases tl with
+    | nil => simp [xfAux]
+    | cons n rest =>
+      rw [xfAux_cons2, List.mem_cons, List.mem_cons, ih]
+      have := xfChar_dot fr to hf ht b c n
+      constructor
+      · rintro (h | h)
+        · exact Or.inl (this.mp h.symm).symm
+        · exact Or.inr h
+      · rintro (h | h)
+        · exact Or.inl (this.mpr h.symm).symm
+        · exact Or.inr h
+
+theorem noDot_transform (a : Bool) (x : CName) : noDot (transform a x) = noDot x := by
+  have h : '.' ∈ transform a x ↔ '.' ∈ x := by
+    unfold transform; split <;> exact mem_xfAux_dot _ _ (by decide) (by decide) _ _
+  unfold noDot
+  by_cases hx : '.' ∈ x
+  · have := h.mpr hx; simp [hx, this]
+  · have : '.' ∉ transform a x := fun e => hx (h.mp e)
+    simp [hx, this]
+
+/-- the components of accepted names contain no dot, so the dotted string determines them -/
+theorem accepted_noDot (c : Coll) : wf c = true → ∀ p ∈ acceptedNames c, ∀ x ∈ p, noDot x = true := by
+  induction c using ind with
+  | h nm ad ts als cs dflt cfg ih =>
+    intro hwf p hp
+    obtain ⟨hW, hkids⟩ := (wf_mk ..).mp hwf
+    obtain ⟨e, he, hpe⟩ := mem_acceptedNames.mp hp
+    have single : ∀ x, goodName ad x = true → ∀ y ∈ [x], noDot y = true := by
+      intro x hx y hy
+      simp at hy; subst hy
+      exact ((goodName_iff ad y).mp hx).2.1
+    rcases mem_taskNames_mk.mp he with ⟨⟨n, t⟩, ht, rfl⟩ | ⟨k, sub, hm, e', he', rfl⟩
+    · have hn : n ∈ ts.map (·.1) := List.mem_map.mpr ⟨(n, t), ht, rfl⟩
+      rcases hpe with rfl | hpe
+      · exact single n (hW.taskKey_good hn)
+      · simp only [ownEntry, List.mem_map] at hpe
+        obtain ⟨a, ha, rfl⟩ := hpe
+        have ham := (mem_aliasesOf hW hn a).mp ha
+        exact single a (hW.aliasKey_good (List.mem_map.mpr ⟨(a, n), ham, rfl⟩))
+    · obtain ⟨_, hknd, _, _⟩ := kid_key hW hm
+      have sub_ok : ∀ q, q ∈ acceptedNames sub → ∀ x ∈ subName ad k q, noDot x = true := by
+        intro q hq x hx
+        simp only [subName, List.mem_cons, List.mem_map] at hx
+        rcases hx with rfl | ⟨y, hy, rfl⟩
+        · rw [noDot_transform]; exact hknd
+        · rw [noDot_transform]; exact ih k sub hm (hkids k sub hm) q hq y hy
+      rcases hpe with rfl | hpe
+      · exact sub_ok e'.1 (mem_acceptedNames.mpr ⟨e', he', Or.inl rfl⟩)
+      · simp only [prefixEntry, List.mem_append, List.mem_map] at hpe
+        rcases hpe with ⟨q', hq', rfl⟩ | hpe
+        · exact sub_ok q' (mem_acceptedNames.mpr ⟨e', he', Or.inr hq'⟩)
+        · split at hpe
+          · simp at hpe; subst hpe
+            exact single k (hW.collKey_good (List.mem_map.mpr ⟨(k, sub), hm, rfl⟩))
+          · simp at hpe
+
+/-- the names the parser is keyed by, as strings -/
+def acceptedStrings (c : Coll) : List CName := (acceptedNames c).map joinDot
+
+theorem mem_acceptedStrings (c : Coll) (hwf : wf c = true) (n : CName) :
+    n ∈ acceptedStrings c ↔ splitOnDot n ∈ acceptedNames c := by
+  unfold acceptedStrings
+  rw [List.mem_map]
+  constructor
+  · rintro ⟨p, hp, rfl⟩
+    have hc := accepted_canonical c hwf p hp
+    rw [splitOnDot_joinDot p hc.1 (accepted_noDot c hwf p hp)]
+    exact hp
+  · intro h
+    exact ⟨splitOnDot n, h, joinDot_splitOnDot n⟩
+
 /-! ### the behaviour before the repairs (for the counterexample theorems) -/
 
 def shallowKeep (ours : KVs) (kv : Key × Val) : Key × Val :=
